@@ -109,6 +109,29 @@ def stress_api(r, idx):
             f = m.field.add(); f.name, f.number, f.label, f.type = "address_v4", 162, 1, 9
             f.options.Extensions[field_info_pb2.field_info].format = field_info_pb2.FieldInfo.IPV4
         feats.append("uuid4-and-ip-formatted-fields")
+        # AIP-4235: several auto-populated fields on one unary rpc (the client emits one block per field, in the configured order)
+        fresh = {}
+        for m in main.proto.message_type:
+            names = {x.name for x in m.field}
+            if m.name.endswith("Request") and not ({"trace_uuid", "span_uuid", "dedupe_uuid", "attempt_uuid"} & names):
+                for nm, num in (("trace_uuid", 170), ("span_uuid", 171), ("dedupe_uuid", 172), ("attempt_uuid", 173)):
+                    f = m.field.add(); f.name, f.number, f.label, f.type = nm, num, 1, 9
+                    f.options.Extensions[field_info_pb2.field_info].format = field_info_pb2.FieldInfo.UUID4
+                fresh["." + api.package + "." + m.name] = True
+        ms = [{"selector": f"{api.package}.{sv.name}.{m.name}", "auto_populated_fields": ["trace_uuid", "span_uuid", "dedupe_uuid", "attempt_uuid"]}
+              for sv in main.proto.service for m in sv.method
+              if not m.client_streaming and not m.server_streaming and m.input_type in fresh]
+        sel = [ls for ls in ((yaml or {}).get("publishing") or {}).get("library_settings", [])]
+        if sel:      # selective generation: only methods that stay in the library can carry settings
+            kept = set(sel[0]["python_settings"]["common"]["selective_gapic_generation"]["methods"])
+            ms = [x for x in ms if x["selector"] in kept]
+        ms = ms[:3]
+        if ms:
+            yaml = dict(yaml or {})
+            pub = dict(yaml.get("publishing") or {})
+            pub["method_settings"] = ms
+            yaml["publishing"] = pub
+            feats.append("several-auto-populated-fields")
     api.extra_targets = []
     if idx % 3 != 2:
         # several proto sub-packages of the API package (the generator walks them when it emits the %sub templates)
